@@ -17,13 +17,14 @@ EXTENDS ColumnMap, Json
 CONSTANTS MRows, MKeys, MVals, LoadLo, LoadN, MaxHist, Legacy
 
 VARIABLE hist
-vars == <<m, fills, hist>>
+vars == <<m, wr, fills, cols, hist>>
 
 Rows == MRows        \* a subset of the six row classes 1..6
 LoadRec == [op |-> "Load", key |-> "a", lo |-> LoadLo, n |-> LoadN, step |-> 1, kind |-> "int"]
 
-Init == /\ m = <<>>
+Init == /\ m = <<>> /\ wr = {}
         /\ fills = <<[key |-> "a", lo |-> LoadLo, n |-> LoadN, step |-> 1, kind |-> "int"]>>
+        /\ cols = {"a"}
         /\ hist = <<LoadRec>>
 
 H(rec) == hist' = Append(hist, rec)
@@ -59,7 +60,7 @@ KeysExact == \A r \in Rows :
     IN  /\ \A k \in must : Holds(r, k)
         /\ \A k \in MKeys : Written(r, k) => k \in may
 
-View == <<m, fills>>
+View == <<m, fills, cols>>
 Bound == Len(hist) <= MaxHist + 1
 EmitLeaf == Len(hist') = MaxHist + 1 => PrintT(<<"SCRIPT", ToJson(hist')>>)
 EmitAll == PrintT(<<"SCRIPT", ToJson(hist')>>)
